@@ -16,6 +16,27 @@ def main():
     if arg in ("quick", "thorough"):
         tier = arg
     os.environ["HY_EFFECTIVE_TIER"] = tier
-    sys.exit(mod.main(tier, seed))
+    try:
+        rc = mod.main(tier, seed)
+    except Exception:
+        # the check machinery itself stumbled (typically over an answer of the implementation it has never seen): the
+        # correspondence is then not established; say so instead of dying with a traceback only
+        import traceback, json, time
+        tb = traceback.format_exc()
+        sys.stderr.write(tb)
+        root = os.path.dirname(os.path.dirname(os.path.abspath(__file__)))
+        os.makedirs(os.path.join(root, "replays"), exist_ok=True)
+        path = os.path.join(root, "replays", "%s-%s-%d.json" % (prop, tier, seed))
+        json.dump({"property": prop, "tier": tier, "seed": seed, "kind": "no-failing-input-found",
+                   "broken": [{"what": "the correspondence check could not be completed (exception in the check)", "traceback": tb[-3000:]}]},
+                  open(path, "w", encoding="utf-8"), ensure_ascii=False, indent=1)
+        ev = {"property_id": prop, "tier": tier, "seed": seed, "level": "other", "coverage": {"explanation": "this run did not complete: the check was aborted by an exception (" +
+              tb.strip().split("\n")[-1][:200] + "); nothing is claimed for it"}, "assumptions": [], "wall_s": 0, "violations": 1}
+        try: json.dump(ev, open(os.path.join(root, "evidence", prop + ".json"), "w", encoding="utf-8"), ensure_ascii=False, indent=1)
+        except Exception: pass
+        print("VIOLATION property=%s replay=%s no-failing-input-found" % (prop, path))
+        sys.stdout.flush()
+        rc = 1
+    sys.exit(rc)
 
 main()
